@@ -37,11 +37,15 @@ def pair(d, collide):
         s1 = {idk: "http://x.test/a/s.json", "items": {"$ref": "t.json"}}
         s2 = {idk: "http://x.test/b/s.json", "items": {"$ref": "t.json"}}
         return (s1, {"http://x.test/a/t.json": {"maximum": 3}}, None), (s2, {"http://x.test/b/t.json": {"minimum": 7}}, None)
-    if collide == "format":
+    if collide in ("format", "format-str"):
         f1 = FormatChecker(formats=())
-        f1.checks("f")(lambda i: not isinstance(i, int) or i <= 3)
         f2 = FormatChecker(formats=())
-        f2.checks("f")(lambda i: not isinstance(i, int) or i >= 7)
+        if collide == "format":
+            f1.checks("f")(lambda i: not isinstance(i, int) or i <= 3)
+            f2.checks("f")(lambda i: not isinstance(i, int) or i >= 7)
+        else:
+            f1.checks("f")(lambda i: not isinstance(i, str) or len(i) <= 1)
+            f2.checks("f")(lambda i: not isinstance(i, str) or len(i) == 0)
         s = {"items": {"format": "f"}}
         return (s, {}, f1), (dict(s), {}, f2)
     if collide == "pattern":
@@ -61,11 +65,19 @@ def summ(errs):
     return [[e.validator] + list(e.absolute_path) for e in errs]
 
 
-def interleave(d, collide, steps, third=False):
+def interleave(d, collide, steps, third=False, same=False):
+    strs = collide == "format-str"
+
     def pre(x, y, sched):
+        if strs:
+            for e in list(x) + list(y):
+                if len(e) > 1:
+                    return False
         return len(x) <= 2 and len(y) <= 2 and len(sched) == steps
 
     def body(x, y, sched):
+        if same:
+            y = x                    # the very same instance object goes to both validators
         a, b = pair(d, collide)
         try:
             alone = [summ(list(make(d, a).iter_errors(x))), summ(list(make(d, b).iter_errors(y)))]
@@ -97,12 +109,13 @@ def interleave(d, collide, steps, third=False):
         return True, ("errors" if n else "none")
 
     T = List[int] if third else List[bool]
-    return Spec([("x", List[int]), ("y", List[int]), ("sched", T)], pre if not third else (lambda x, y, sched: pre(x, y, sched) and all(0 <= s < 3 for s in sched)),
+    E = List[str] if strs else List[int]
+    return Spec([("x", E), ("y", E), ("sched", T)], pre if not third else (lambda x, y, sched: pre(x, y, sched) and all(0 <= s < 3 for s in sched)),
                 body, tags=["errors", "none"])
 
 
-def cube(d, collide, steps, prefix, third=False):
-    spec = interleave(d, collide, steps, third)
+def cube(d, collide, steps, prefix, third=False, same=False):
+    spec = interleave(d, collide, steps, third, same)
     inner = spec.pre
 
     def pre(x, y, sched):
@@ -119,7 +132,7 @@ def cube(d, collide, steps, prefix, third=False):
     return spec
 
 
-COLLIDE = ["ref", "remote", "relative", "format", "pattern"]
+COLLIDE = ["ref", "remote", "relative", "format", "format-str", "pattern"]
 
 
 def conditions(tier, seed, active):
@@ -129,12 +142,19 @@ def conditions(tier, seed, active):
     steps = 4 if quick else 6
     for d in (3, 4, 6, 7):
         for col in COLLIDE:
-            if quick and d in (3, 6) and col in ("format", "pattern"):
+            if quick and d in (3, 6) and col in ("format", "pattern", "format-str"):
                 continue
             for prefix in itertools.product((0, 1), repeat=2):
                 out.append(dict(id="two/%s/d%d/steps%d/prefix%s" % (col, d, steps, "".join(map(str, prefix))), module=__name__, factory="cube",
                                 params=dict(d=d, collide=col, steps=steps, prefix=list(prefix)), timeout=1500 if quick else 3600,
                                 tags=["errors"], witness=["errors"] if prefix == (0, 1) and d == 7 else []))
+        for col in ("ref", "remote"):
+            if quick and d in (3, 6):
+                continue
+            for prefix in itertools.product((0, 1), repeat=2):
+                out.append(dict(id="same-instance/%s/d%d/steps%d/prefix%s" % (col, d, steps, "".join(map(str, prefix))), module=__name__, factory="cube",
+                                params=dict(d=d, collide=col, steps=steps, prefix=list(prefix), same=True), timeout=1500 if quick else 3600,
+                                tags=["errors"], witness=[]))
         if d == 7 or not quick:
             for p0 in range(3):
                 out.append(dict(id="three/ref/d%d/steps3/first%d" % (d, p0), module=__name__, factory="cube",
